@@ -282,6 +282,16 @@ def generate(gen_dir=None):
     L.append('    for (const PDU* p = &pdu; p; p = p->inner_pdu()) { if (!first) os << " | "; first = false; describe_layer(*p, os); }')
     L.append('    return os.str();')
     L.append('}')
+    # type rows: what the object answers to (matches_flag with every class's pdu_flag; find_pdu / tins_cast rest on it) against
+    # what it is (dynamic_cast to every class) -- in whatever STATE the object is in
+    flagged = [c for c in order if not res[c].get('abstract') or True]
+    L.append('inline std::string type_names() { return "%s"; }' % ' '.join(flagged))
+    L.append('inline std::string type_rows(const PDU& pdu) {')
+    L.append('    std::string m = "M", d = "D";')
+    for c in flagged:
+        L.append('    m += pdu.matches_flag(%s::pdu_flag) ? " 1" : " 0"; d += dynamic_cast<const %s*>(&pdu) ? " 1" : " 0";' % (c, c))
+    L.append('    return m + " " + d;')
+    L.append('}')
     # setters
     L.append('// returns 1 when the (class, field) setter exists and was called')
     L.append('inline int set_field(PDU& pdu, const std::string& cls, const std::string& field, uint64_t v) {')
